@@ -291,8 +291,12 @@ Section Model.
       [98;117;105;108;116;105;110;115] ].                        (* builtins *)
 
   (* ExceptionInfo.from_exc_info / format_exception_only: the type string *)
-  Definition ei_type (module qualname : str) : str :=
-    if existsb (str_eqb module) M_plain_mods then qualname else module ++ [46] ++ qualname.
+  Definition M_unknown : str := [60;117;110;107;110;111;119;110;62].      (* <unknown> *)
+  Definition ei_type (module : option str) (qualname : str) : str :=
+    match module with
+    | Some m => if existsb (str_eqb m) M_plain_mods then qualname else m ++ [46] ++ qualname
+    | None => M_unknown ++ [46] ++ qualname                (* not isinstance(type_mod, str) *)
+    end.
 
   (* ExceptionInfo.get_formatted_exception_only *)
   Definition ei_exc_only (ty msg : str) : str :=
